@@ -25,7 +25,7 @@
 (*   "gclive"         the collector unlinks a reachable data file          *)
 (*                                                                         *)
 (* Classes (exported by POSTCONDITION Export) is the specification's  *)
-(* enumeration of crash points: (operation, phase, system call).  The C03  *)
+(* enumeration of crash points: (operation, prior, phase, call).  The C03  *)
 (* harness must hit every class with a real crash (harness/props/c03.py).  *)
 (***************************************************************************)
 EXTENDS FSDurable, SequencesExt, Json, IOUtils
@@ -124,16 +124,17 @@ Unmark(xs) == [i \in 1..Len(xs) |-> IUnlink(MarkP(xs[i]), "unmark")]
 (* garbage_collector.py:54-157) on a table with n prior snapshots ---------------- *)
 Prog(o, n) ==
   LET k == n + 1 IN
+  LET first == IF n = 0 THEN << IMkdir("metadata/inflight", "metadata", "mkdir") >> ELSE << >> IN
   CASE o = "create" ->
          << IMkdir(ROOT, "", "mkdir"), IMkdir("metadata", ROOT, "mkdir"), IMkdir("data", ROOT, "mkdir"),
             IMkdir("metadata/manifests", "metadata", "mkdir"), IMkdir(".locks", ROOT, "mkdir") >>
          \o Flip(0, {F(MetaP(0))}) \o << IAck(TRUE) >>
     [] o = "append" ->
-         Marked("d", DF(DataP(k), "a")) \o Marked("m", WF(ManP(k), "metadata/manifests", "manifest", "manifest", "", <<>>, "man"))
+         first \o Marked("d", DF(DataP(k), "a")) \o Marked("m", WF(ManP(k), "metadata/manifests", "manifest", "manifest", "", <<>>, "man"))
          \o Marked("l", WF(ListP(k), "metadata/manifests", "list", "list", "", <<>>, "lst"))
          \o Flip(k, ReachK(k)) \o Unmark(<<"d", "m", "l">>) \o << IAck(TRUE) >>
     [] o = "multi" ->
-         Marked("d", DF(DataP(k), "a")) \o Marked("e", DF("data/e" \o S(k), "b"))
+         first \o Marked("d", DF(DataP(k), "a")) \o Marked("e", DF("data/e" \o S(k), "b"))
          \o Marked("m", WF(ManP(k), "metadata/manifests", "manifest", "manifest", "", <<>>, "man"))
          \o Marked("l", WF(ListP(k), "metadata/manifests", "list", "list", "", <<>>, "lst"))
          \o Flip(k, ReachK(k) \cup {F("data/e" \o S(k))}) \o Unmark(<<"d", "e", "m", "l">>) \o << IAck(TRUE) >>
@@ -159,10 +160,11 @@ Ent(p, d, c, kind, tgt) == [path |-> p, dir |-> d, cls |-> c, kind |-> kind, siz
 PreEntries(o, n) ==
   IF o = "create" THEN << >>
   ELSE << Ent(ROOT, "", "dir", "dir", ""), Ent("metadata", ROOT, "dir", "dir", ""), Ent("data", ROOT, "dir", "dir", ""),
-          Ent("metadata/manifests", "metadata", "dir", "dir", ""), Ent("metadata/inflight", "metadata", "dir", "dir", ""),
-          Ent(".locks", ROOT, "dir", "dir", ""),
+          Ent("metadata/manifests", "metadata", "dir", "dir", ""), Ent(".locks", ROOT, "dir", "dir", ""),
           [Ent(".locks/metadata.lock", ".locks", "lock", "file", "") EXCEPT !.size = 0],
           Ent(HINT, ROOT, "hint", "file", MetaP(n)) >>
+       \* metadata/inflight is created by the first marker write ever (write_file: os.makedirs)
+       \o (IF n >= 1 THEN << Ent("metadata/inflight", "metadata", "dir", "dir", "") >> ELSE << >>)
        \o [j \in 1..(n + 1) |-> Ent(MetaP(j - 1), "metadata", "meta", "file", "")]
        \o [j \in 1..n |-> Ent(ListP(j), "metadata/manifests", "list", "file", "")]
        \o [j \in 1..n |-> Ent(ManP(j), "metadata/manifests", "manifest", "file", "")]
@@ -207,7 +209,7 @@ Done == pc = Len(Prog(opn, prior)) + 1
 
 (* ---------------- export: the crash points the real harness has to hit ---------------- *)
 Classes ==
-  UNION {{[op |-> on[1], ph |-> Prog(on[1], on[2])[i].ph, call |-> Prog(on[1], on[2])[i].op] :
+  UNION {{[op |-> on[1], prior |-> on[2], ph |-> Prog(on[1], on[2])[i].ph, call |-> Prog(on[1], on[2])[i].op] :
              i \in 1..Len(Prog(on[1], on[2]))} :
            on \in {x \in Ops \X (0..MaxPrior) : Valid(x[1], x[2])}}
 
